@@ -6,8 +6,9 @@
    5. the propagated covariance is symmetric positive semidefinite, every F, every history;
    6. the covariance of the faithful model is NOT chunking-invariant (wrong order of the reversed
       cumulative product); with cumprod(..., left=False) it is the documented recursion. *)
-From Coq Require Import Reals Lra Psatz List Arith Lia.
+From Coq Require Import QArith Reals Lra Psatz List Arith Lia.
 Import ListNotations.
+Close Scope Q_scope.
 From PV Require Import Base.Num Base.RTac Base.Mat Model.Cumops Model.LieGroup Model.IMU Proofs.Cumops Proofs.LieGroup.
 Local Open Scope R_scope.
 #[local] Remove Hints NumQ NumZ : typeclass_instances.
@@ -365,29 +366,26 @@ Definition w_R (s : wstate) : quatR := fst (fst s).
 Definition w_v (s : wstate) : vec3R := snd (fst s).
 Definition w_p (s : wstate) : vec3R := snd s.
 
-Section World.
-Variable g : vec3R.
 (*  R <- R Exp(w dt),  v <- v + R a dt,  p <- p + v dt + 1/2 R a dt^2,   a = acc - Rg^-1 g,
     Rg = the supplied rotation of the frame, else the new R *)
-Definition world_step (s : wstate) (f : iframeR) : wstate :=
+Definition world_step (g : vec3R) (s : wstate) (f : iframeR) : wstate :=
   let R' := SO3_mul (w_R s) (i_inc f) in
   let a := vsub (i_acc f) (SO3_act (SO3_inv (grav_rot f R')) g) in
   let Ra := SO3_act (w_R s) a in
   (R', vadd (w_v s) (vscale (i_dt f) Ra),
    vadd (w_p s) (vadd (vscale (i_dt f) (w_v s)) (vscale (i_dt f * i_dt f) (vscale (1 / 2) Ra)))).
-Fixpoint world_run (s : wstate) (fs : list iframeR) : list wstate :=
-  match fs with [] => [] | f :: r => let s' := world_step s f in s' :: world_run s' r end.
+Fixpoint world_run (g : vec3R) (s : wstate) (fs : list iframeR) : list wstate :=
+  match fs with [] => [] | f :: r => let s' := world_step g s f in s' :: world_run g s' r end.
 
-Variables (r0 : quatR) (v0 p0 : vec3R).
 (* predict: composition of a preintegrated state with the initial state *)
-Definition compose (s : pstate) : wstate :=
+Definition compose (r0 : quatR) (v0 p0 : vec3R) (s : pstate) : wstate :=
   (SO3_mul r0 (p_R s), vadd v0 (SO3_act r0 (p_v s)), vadd (vadd p0 (SO3_act r0 (p_p s))) (vscale (p_T s) v0)).
 
-Lemma compose_init : compose pre_init = (r0, v0, p0).
+Lemma compose_init r0 v0 p0 : compose r0 v0 p0 pre_init = (r0, v0, p0).
 Proof. unfold compose, pre_init, p_R, p_v, p_p, p_T. cbn [fst snd]. lie_ring. Qed.
 
-Lemma compose_step s f : unitq r0 -> unitq (p_R s) ->
-  compose (pre_step g r0 s f) = world_step (compose s) f.
+Lemma compose_step g r0 v0 p0 s f : unitq r0 -> unitq (p_R s) ->
+  compose r0 v0 p0 (pre_step g r0 s f) = world_step g (compose r0 v0 p0 s) f.
 Proof.
   intros H0 HR. destruct s as [[[dR dv] dp] T].
   unfold compose, pre_step, world_step, pre_acc, p_R, p_v, p_p, p_T, w_R, w_v, w_p. cbn [fst snd].
@@ -395,37 +393,36 @@ Proof.
   generalize (vsub (i_acc f) (SO3_act (SO3_inv (grav_rot f (SO3_mul (SO3_mul r0 dR) (i_inc f)))) g)). intros a.
   rewrite (SO3_act_mul r0 dR a H0 HR).
   generalize (SO3_act dR a). intros w. generalize (i_dt f). intros dt. generalize (SO3_mul (SO3_mul r0 dR) (i_inc f)). intros q.
+  clear H0 HR f g dR.
   apply pair_eq; [apply pair_eq; [reflexivity|]|]; lie_ring.
 Qed.
 
-Lemma compose_run : forall fs s, unitq r0 -> unitq (p_R s) -> Forall (fun f => unitq (i_inc f)) fs ->
-  map compose (pre_run g r0 s fs) = world_run (compose s) fs.
+Lemma compose_run g r0 v0 p0 : forall fs s, unitq r0 -> unitq (p_R s) -> Forall (fun f => unitq (i_inc f)) fs ->
+  map (compose r0 v0 p0) (pre_run g r0 s fs) = world_run g (compose r0 v0 p0 s) fs.
 Proof.
   induction fs as [|f fs IH]; intros s H0 HR HF; [reflexivity|].
-  cbn [pre_run map world_run]. rewrite compose_step by assumption. f_equal.
-  rewrite IH; [reflexivity|assumption| |exact (Forall_inv_tail HF)].
+  cbn [pre_run map world_run]. rewrite IH; [now rewrite compose_step by assumption|assumption| |exact (Forall_inv_tail HF)].
   change (p_R (pre_step g r0 s f)) with (SO3_mul (p_R s) (i_inc f)). apply unitq_mul; [assumption|exact (Forall_inv HF)].
 Qed.
 
-Lemma world_run_app : forall a b s, world_run s (a ++ b) = world_run s a ++ world_run (fold_left world_step a s) b.
+Lemma world_run_app g : forall a b s, world_run g s (a ++ b) = world_run g s a ++ world_run g (fold_left (world_step g) a s) b.
 Proof. induction a as [|f a IH]; intros b s; [reflexivity|]. cbn. now rewrite IH. Qed.
-Lemma world_run_last : forall fs s d, fs <> [] -> List.last (world_run s fs) d = fold_left world_step fs s.
+Lemma world_run_last g : forall fs s d, fs <> [] -> List.last (world_run g s fs) d = fold_left (world_step g) fs s.
 Proof.
   induction fs as [|f fs IH]; intros s d H; [contradiction|].
   destruct fs as [|f' fs]; [reflexivity|].
-  change (world_run s (f :: f' :: fs)) with (world_step s f :: world_run (world_step s f) (f' :: fs)).
-  change (fold_left world_step (f :: f' :: fs) s) with (fold_left world_step (f' :: fs) (world_step s f)).
-  rewrite <- (IH (world_step s f) d) by discriminate.
+  change (world_run g s (f :: f' :: fs)) with (world_step g s f :: world_run g (world_step g s f) (f' :: fs)).
+  change (fold_left (world_step g) (f :: f' :: fs) s) with (fold_left (world_step g) (f' :: fs) (world_step g s f)).
+  rewrite <- (IH (world_step g s f) d) by discriminate.
   cbn [world_run]. reflexivity.
 Qed.
-Lemma length_world_run : forall fs s, length (world_run s fs) = length fs.
+Lemma length_world_run g : forall fs s, length (world_run g s fs) = length fs.
 Proof. induction fs as [|f fs IH]; intros s; cbn; [reflexivity|now rewrite IH]. Qed.
-Lemma world_unit : forall fs s, unitq (w_R s) -> Forall (fun f => unitq (i_inc f)) fs -> unitq (w_R (fold_left world_step fs s)).
+Lemma world_unit g : forall fs s, unitq (w_R s) -> Forall (fun f => unitq (i_inc f)) fs -> unitq (w_R (fold_left (world_step g) fs s)).
 Proof.
   induction fs as [|f fs IH]; intros s H HF; [assumption|]. cbn [fold_left]. apply IH; [|exact (Forall_inv_tail HF)].
-  change (w_R (world_step s f)) with (SO3_mul (w_R s) (i_inc f)). apply unitq_mul; [assumption|exact (Forall_inv HF)].
+  change (w_R (world_step g s f)) with (SO3_mul (w_R s) (i_inc f)). apply unitq_mul; [assumption|exact (Forall_inv HF)].
 Qed.
-End World.
 
 Lemma last_map {A B} (f : A -> B) : forall l d d', l <> [] -> List.last (map f l) d' = f (List.last l d).
 Proof.
@@ -501,4 +498,463 @@ Proof.
     rewrite (last_map w_R W (st_w st)), (last_map w_v W (st_w st)), (last_map w_p W (st_w st)) by assumption.
     unfold W. rewrite world_run_last by (unfold fs; discriminate).
     destruct (fold_left (world_step (c_g c)) fs (st_w st)) as [[a b] d]. reflexivity.
+Qed.
+
+(* ------------------------------------------------------------------ 3. consecutive chunks with reset=False = one call *)
+(* one module object, one batch item, fed the chunks one call after the other *)
+Fixpoint run1_gen (left : bool) (c : cfg R) (st : istate R) (chunks : list (list iframeR)) : option (list (out1 R) * istate R) :=
+  match chunks with
+  | [] => Some ([], st)
+  | fs :: r =>
+    match forward1_gen left c st fs with
+    | None => None
+    | Some (o, st') =>
+      match run1_gen left c st' r with
+      | None => None
+      | Some (os, st'') => Some (o :: os, st'')
+      end
+    end
+  end.
+Definition run1 := run1_gen true.
+
+Definition unit_frames (fs : list iframeR) : Prop := Forall (fun f => unitq (i_inc f)) fs.
+
+Lemma run1_world (left : bool) (c : cfg R) : c_reset c = false ->
+  forall chunks st, Forall (fun fs => fs <> []) chunks -> Forall unit_frames chunks -> unitq (s_rot st) ->
+  exists os st', run1_gen left c st chunks = Some (os, st') /\
+    concat (map (@o_rot R) os) = map w_R (world_run (c_g c) (st_w st) (concat chunks)) /\
+    concat (map (@o_vel R) os) = map w_v (world_run (c_g c) (st_w st) (concat chunks)) /\
+    concat (map (@o_pos R) os) = map w_p (world_run (c_g c) (st_w st) (concat chunks)) /\
+    st_w st' = fold_left (world_step (c_g c)) (concat chunks) (st_w st) /\
+    rij_val st' = fold_left SO3_mul (map (@i_inc R) (concat chunks)) (rij_val st).
+Proof.
+  intros Hr. induction chunks as [|fs chunks IH]; intros st Hne Hu H0.
+  - exists [], st. cbn. auto 6.
+  - destruct (forward1_world left c st fs (Forall_inv Hne) H0 (Forall_inv Hu)) as (o & st1 & E & Er & Ev & Ep & _ & _ & Hs).
+    destruct (Hs Hr) as (Hw & Hq & _).
+    assert (H1 : unitq (s_rot st1)).
+    { change (s_rot st1) with (w_R (st_w st1)). rewrite Hw. apply world_unit; [exact H0|exact (Forall_inv Hu)]. }
+    destruct (IH st1 (Forall_inv_tail Hne) (Forall_inv_tail Hu) H1) as (os & st2 & E2 & Rr & Rv & Rp & Rw & Rq).
+    exists (o :: os), st2. cbn [run1_gen]. rewrite E, E2. split; [reflexivity|].
+    cbn [map concat]. rewrite world_run_app, !map_app, fold_left_app, <- Hw, Er, Ev, Ep, Rr, Rv, Rp.
+    split; [reflexivity|]. split; [reflexivity|]. split; [reflexivity|]. split; [exact Rw|].
+    rewrite Rq, Hq, fold_left_app. reflexivity.
+Qed.
+
+(* every split of the frame list into consecutive non-empty chunks: same rot / vel / pos at every
+   frame, same final state (pos, rot, vel and the carried rotation Rij) as one call *)
+Theorem chunk_invariance (left : bool) (c : cfg R) (st : istate R) (chunks : list (list iframeR)) :
+  c_reset c = false -> chunks <> [] -> Forall (fun fs => fs <> []) chunks -> Forall unit_frames chunks -> unitq (s_rot st) ->
+  exists os st1 o st2,
+    run1_gen left c st chunks = Some (os, st1) /\ forward1_gen left c st (concat chunks) = Some (o, st2) /\
+    concat (map (@o_rot R) os) = o_rot o /\ concat (map (@o_vel R) os) = o_vel o /\ concat (map (@o_pos R) os) = o_pos o /\
+    st_w st1 = st_w st2 /\ rij_val st1 = rij_val st2.
+Proof.
+  intros Hr Hc Hne Hu H0.
+  destruct (run1_world left c Hr chunks st Hne Hu H0) as (os & st1 & E1 & Rr & Rv & Rp & Rw & Rq).
+  assert (Hcne : concat chunks <> []).
+  { destruct chunks as [|fs r]; [contradiction|]. pose proof (Forall_inv Hne) as Hf. destruct fs; [contradiction|]. discriminate. }
+  assert (Hcu : Forall (fun f => unitq (i_inc f)) (concat chunks)).
+  { clear - Hu. induction chunks as [|fs r IH]; [constructor|]. cbn. apply Forall_app. split; [exact (Forall_inv Hu)|apply IH; exact (Forall_inv_tail Hu)]. }
+  destruct (forward1_world left c st (concat chunks) Hcne H0 Hcu) as (o & st2 & E2 & Er & Ev & Ep & _ & _ & Hs).
+  destruct (Hs Hr) as (Hw & Hq & _).
+  exists os, st1, o, st2. rewrite E1, E2, Er, Ev, Ep, Rr, Rv, Rp, Rw, Rq, Hw, Hq. auto 8.
+Qed.
+
+(* reset=True: every call starts from the constructor state *)
+Lemma forward1_reset (left : bool) (c : cfg R) (st : istate R) fs o st' :
+  c_reset c = true -> forward1_gen left c st fs = Some (o, st') -> st' = st.
+Proof.
+  intros Hr. unfold forward1_gen. destruct fs; [discriminate|].
+  destruct (integrate _ _ _); [|discriminate]. destruct (predict _ _ _ _) as [[a b] d].
+  destruct (if c_prop c then _ else _); [|discriminate]. rewrite Hr. intros E. now inversion E.
+Qed.
+
+(* ------------------------------------------------------------------ covariance through histories of calls *)
+Definition cov_inputs_ok (c : cfg R) (fs : list iframeR) : Prop :=
+  nonneg3 (c_cg c) /\ nonneg3 (c_ca c) /\ Forall (fun f => 0 < i_dt f) fs.
+
+Lemma cframes_dt : forall Rij G fs, Forall (fun f => 0 < i_dt f) fs -> Forall (fun x => 0 < c_dt x) (cframes Rij G fs).
+Proof.
+  intros Rij G fs. unfold cframes. generalize (combine (combine Rij (g_w G)) (g_a G)). intros l.
+  revert l. induction fs as [|f fs IH]; intros [|x l] H; cbn; try constructor.
+  - exact (Forall_inv H).
+  - apply IH. exact (Forall_inv_tail H).
+Qed.
+
+Theorem forward1_cov_valid (left : bool) (c : cfg R) (st : istate R) (fs : list iframeR) o st' :
+  mvalid (s_cov st) -> cov_inputs_ok c fs -> forward1_gen left c st fs = Some (o, st') ->
+  (forall C, o_cov o = Some C -> mvalid C) /\ mvalid (s_cov st').
+Proof.
+  intros Hv (Hg & Ha & Hdt). unfold forward1_gen. destruct fs as [|f0 fs0]; [discriminate|]. set (fs := f0 :: fs0) in *.
+  destruct (integrate _ _ _) as [G|]; [|discriminate]. destruct (predict _ _ _ _) as [[rots vels] poss].
+  set (Rij := match s_rij st with Some r => map (SO3_mul r) (g_Dr G) | None => g_Dr G end).
+  destruct (c_prop c).
+  - destruct (propagate_cov_valid left (cframes Rij G fs) (s_cov st) (c_cg c) (c_ca c) Hv Hg Ha (cframes_dt Rij G fs Hdt)) as (C & HC & VC).
+    rewrite HC. intros E. inversion E; subst. cbn [o_cov]. split; [intros C' E'; injection E' as <-; exact VC|].
+    destruct (c_reset c); [assumption|exact VC].
+  - intros E. inversion E; subst. cbn [o_cov]. split; [discriminate|]. destruct (c_reset c); assumption.
+Qed.
+
+(* any history of calls on one object: every returned covariance and the carried one stay valid *)
+Theorem run1_cov_valid (left : bool) (c : cfg R) : forall chunks st os st',
+  mvalid (s_cov st) -> Forall (cov_inputs_ok c) chunks -> run1_gen left c st chunks = Some (os, st') ->
+  Forall (fun o => forall C, o_cov o = Some C -> mvalid C) os /\ mvalid (s_cov st').
+Proof.
+  induction chunks as [|fs r IH]; intros st os st' Hv Hok E; cbn in E.
+  - inversion E; subst. split; [constructor|assumption].
+  - destruct (forward1_gen left c st fs) as [[o st1]|] eqn:E1; [|discriminate].
+    destruct (run1_gen left c st1 r) as [[os2 st2]|] eqn:E2; [|discriminate]. inversion E; subst.
+    destruct (forward1_cov_valid left c st fs o st1 Hv (Forall_inv Hok) E1) as (Ho & Hv1).
+    destruct (IH st1 os2 st' Hv1 (Forall_inv_tail Hok) E2) as (Hos & Hv2).
+    split; [constructor; assumption|assumption].
+Qed.
+Lemma init_cov_valid pos rot vel : mvalid (s_cov (init_istate (F:=R) pos rot vel)).
+Proof. apply mzero_valid. Qed.
+
+(* ------------------------------------------------------------------ 4. rank normalisation *)
+Theorem rank_equivalence (left : bool) (c : cfg R) (st : list (istate R)) :
+  (forall dt q j a r,
+     forward_gen left c st (T1 dt) (T1 q) (T1 j) (T1 a) (option_map T1 r) =
+     forward_gen left c st (T3 [[dt]]) (T3 [[q]]) (T3 [[j]]) (T3 [[a]]) (option_map (fun x => T3 [[x]]) r)) /\
+  (forall dt q j a r,
+     forward_gen left c st (T2 dt) (T2 q) (T2 j) (T2 a) (option_map T2 r) =
+     forward_gen left c st (T3 [dt]) (T3 [q]) (T3 [j]) (T3 [a]) (option_map (fun x => T3 [x]) r)).
+Proof. split; intros dt q j a [r|]; reflexivity. Qed.
+
+
+(* ------------------------------------------------------------------ 6. covariance vs chunking: refuted on the faithful model
+   The model is polymorphic in the number type; the witness is evaluated over Q (exact rationals).
+   Three frames, gyro = 0 (identity increments, Jr = I), dt = 1/2, accelerations e_x, e_y, e_z, no gravity,
+   unit sensor covariances, zero initial state: one call vs chunks [2, 1] with reset=False. *)
+Definition wfr (a : @vec3 Q) : iframe Q :=
+  {| i_dt := (1 # 2)%Q; i_inc := @SO3_id Q NumQ; i_acc := a; i_grot := None; i_jr := @mid3 Q NumQ |}.
+Definition wcfg : cfg Q := {| c_g := (0, 0, 0)%Q; c_cg := (1, 1, 1)%Q; c_ca := (1, 1, 1)%Q; c_prop := true; c_reset := false |}.
+Definition wst : istate Q := @init_istate Q NumQ (0, 0, 0)%Q (@SO3_id Q NumQ) (0, 0, 0)%Q.
+Definition wf1 := wfr (1, 0, 0)%Q.
+Definition wf2 := wfr (0, 1, 0)%Q.
+Definition wf3 := wfr (0, 0, 1)%Q.
+Definition cov_of (r : option (out1 Q * istate Q)) : option (@mat Q) := match r with Some (o, _) => o_cov o | None => None end.
+Definition st_of (r : option (out1 Q * istate Q)) : istate Q := match r with Some (_, s) => s | None => wst end.
+Definition w_single (left : bool) : option (@mat Q) := cov_of (@forward1_gen Q NumQ left wcfg wst [wf1; wf2; wf3]).
+Definition w_chunked (left : bool) : option (@mat Q) :=
+  cov_of (@forward1_gen Q NumQ left wcfg (st_of (@forward1_gen Q NumQ left wcfg wst [wf1; wf2])) [wf3]).
+Definition entry (m : option (@mat Q)) (i j : nat) : option Q := match m with Some M => Some (@mget Q NumQ M i j) | None => None end.
+
+Theorem cov_chunks_witness :
+  entry (w_single true) 8 8 = Some (141 # 128)%Q /\ entry (w_chunked true) 8 8 = Some (149 # 128)%Q /\
+  entry (w_single true) 0 7 = Some (-1 # 4)%Q /\ entry (w_chunked true) 0 7 = Some (-1 # 8)%Q.
+Proof. vm_compute. auto. Qed.
+Theorem cov_chunk_invariance_refuted : w_single true <> w_chunked true.
+Proof. intros H. apply (f_equal (fun m => entry m 8 8)) in H. vm_compute in H. discriminate. Qed.
+(* with cumprod(..., left=False) the same stream gives the same covariance either way *)
+Theorem cov_chunks_witness_fixed : w_single false = w_chunked false /\ w_chunked false = w_chunked true.
+Proof. vm_compute. auto. Qed.
+
+Lemma hypotheses_satisfiable :
+  let f : iframe R := {| i_dt := 1; i_inc := SO3_id; i_acc := (0, 0, 1); i_grot := None; i_jr := mid3 |} in
+  let c : cfg R := {| c_g := (0, 0, 1); c_cg := (1, 1, 1); c_ca := (1, 1, 1); c_prop := true; c_reset := false |} in
+  unit_frames [f] /\ cov_inputs_ok c [f] /\ unitq (s_rot (init_istate (0, 0, 0) SO3_id (0, 0, 0))) /\
+  mvalid (s_cov (init_istate (F:=R) (0, 0, 0) SO3_id (0, 0, 0))).
+Proof.
+  cbv zeta. split; [repeat constructor; apply unitq_id|]. split.
+  - unfold cov_inputs_ok, nonneg3. cbn [c_cg c_ca vx vy vz fst snd i_dt].
+    split; [lra|]. split; [lra|]. constructor; [cbn [i_dt]; lra|constructor].
+  - split; [apply unitq_id|apply mzero_valid].
+Qed.
+
+(* ------------------------------------------------------------------ 7. the covariance with cumprod(..., left=False)
+   is the documented recursion  C <- A_k C A_k^T + Q_k  (hence chunking-invariant), every F.
+   Matrix product is associative on well-formed 9x9 matrices only; the C12 theorem wants an
+   unconditionally associative operation, so it is applied to [mm9] (product guarded by the
+   shape test) and transported back along the well-formedness invariant of the scan. *)
+Definition wf9b (M : matR) : bool := Nat.eqb (length M) 9 && forallb (fun r => Nat.eqb (length r) 9) M.
+Lemma wf9b_spec M : wf9b M = true <-> wf 9 9 M.
+Proof.
+  unfold wf9b, wf. rewrite andb_true_iff, Nat.eqb_eq, forallb_forall, Forall_forall. split.
+  - intros (HL & HF). repeat split; try lia. intros r Hr. apply Nat.eqb_eq. now apply HF.
+  - intros (_ & _ & HL & HF). split; [exact HL|]. intros r Hr. apply Nat.eqb_eq. now apply HF.
+Qed.
+Lemma wf9b_nil : wf9b [] = false.  Proof. reflexivity. Qed.
+Definition mm9 (a b : matR) : matR := if wf9b a && wf9b b then mmul a b else [].
+Lemma mm9_wf a b : wf 9 9 a -> wf 9 9 b -> mm9 a b = mmul a b.
+Proof. intros Ha Hb. unfold mm9. apply wf9b_spec in Ha, Hb. now rewrite Ha, Hb. Qed.
+Lemma mm9_assoc a b c : mm9 (mm9 a b) c = mm9 a (mm9 b c).
+Proof.
+  unfold mm9. destruct (wf9b a) eqn:Ea; destruct (wf9b b) eqn:Eb; destruct (wf9b c) eqn:Ec; cbn [andb];
+    rewrite ?wf9b_nil, ?andb_false_r; cbn [andb]; try reflexivity.
+  apply wf9b_spec in Ea, Eb, Ec.
+  assert (Hab : wf9b (mmul a b) = true) by (apply wf9b_spec; eauto with wf).
+  assert (Hbc : wf9b (mmul b c) = true) by (apply wf9b_spec; eauto with wf).
+  rewrite Hab, Hbc. cbn [andb]. now apply (mmul_assoc 9 9 9 9).
+Qed.
+
+Section ScanExt.
+Variable A : Type.
+Variables op1 op2 : A -> A -> A.
+Variable P : A -> Prop.
+Hypothesis P_op : forall a b, P a -> P b -> P (op1 a b).
+Hypothesis ext : forall a b, P a -> P b -> op1 a b = op2 a b.
+Lemma zipop_ext : forall a b, Forall P a -> Forall P b -> zipop op1 a b = zipop op2 a b.
+Proof.
+  induction a as [|x a IH]; intros [|y b] Ha Hb; cbn; try reflexivity.
+  rewrite (ext x y (Forall_inv Ha) (Forall_inv Hb)). f_equal. apply IH; [exact (Forall_inv_tail Ha)|exact (Forall_inv_tail Hb)].
+Qed.
+Lemma pass_ext s v : Forall P v -> pass op1 s v = pass op2 s v.
+Proof. intros H. unfold pass. destruct (length v <? s)%nat; [reflexivity|]. now rewrite zipop_ext by (try apply Forall_skipn'; assumption). Qed.
+Lemma scan_ext : forall strides v, Forall P v -> scan op1 strides v = scan op2 strides v.
+Proof.
+  induction strides as [|s r IH]; intros v H; cbn; [reflexivity|].
+  rewrite <- (pass_ext s v H). destruct (pass op1 s v) as [v1|] eqn:E; [|reflexivity].
+  apply IH. exact (pass_Forall A op1 P P_op s v v1 E H).
+Qed.
+End ScanExt.
+
+Lemma scanl1_ext {A} (f g : A -> A -> A) (P : A -> Prop) (Pf : forall a b, P a -> P b -> P (f a b))
+  (ext : forall a b, P a -> P b -> f a b = g a b) : forall l a, P a -> Forall P l -> scanl1 f a l = scanl1 g a l.
+Proof.
+  induction l as [|x l IH]; intros a Ha Hl; [reflexivity|]. cbn [scanl1].
+  rewrite <- (ext a x Ha (Forall_inv Hl)). f_equal. apply IH; [apply Pf; [assumption|exact (Forall_inv Hl)]|exact (Forall_inv_tail Hl)].
+Qed.
+
+(* the scan over well-formed 9x9 matrices, right order, is the running product *)
+Lemma cumprod_mmul_scanl (x : matR) (l : list matR) : wf 9 9 x -> Forall (wf 9 9) l ->
+  cumprod_model mmul false (x :: l) = Some (scanl mmul x l).
+Proof.
+  intros Hx Hl. unfold cumprod_model, cumops_model.
+  rewrite (scan_ext matR mmul mm9 (wf 9 9)); [| intros; eauto with wf | intros a b Ha Hb; symmetry; now apply mm9_wf | now constructor].
+  change (cumprod_model mm9 false (x :: l) = Some (scanl mmul x l)).
+  rewrite (cumprod_right_scanl mm9 mm9_assoc). unfold scanl. do 2 f_equal.
+  apply (scanl1_ext mm9 mmul (wf 9 9)); try assumption; [|intros; now apply mm9_wf].
+  intros a b Ha Hb. rewrite mm9_wf by assumption. eauto with wf.
+Qed.
+
+(* suffix products  Phi [A_k; ...; A_{F-1}] = I A_{F-1} ... A_k *)
+Definition Phi (l : list matR) : matR := fold_right (fun A acc => mmul acc A) (mid 9) l.
+Fixpoint tails {A} (l : list A) : list (list A) :=
+  match l with [] => [[]] | x :: r => (x :: r) :: tails r end.
+Lemma tails_hd {A} (l : list A) : tails l = l :: tl (tails l).
+Proof. destruct l; reflexivity. Qed.
+Lemma scanl_snoc {A B} (f : A -> B -> A) : forall l a x, scanl f a (l ++ [x]) = scanl f a l ++ [f (fold_left f l a) x].
+Proof.
+  unfold scanl. induction l as [|y l IH]; intros a x; [reflexivity|].
+  cbn [app scanl1 fold_left]. specialize (IH (f a y) x). cbn [app] in IH. injection IH as IH. now rewrite IH.
+Qed.
+Lemma fold_left_rev {A B} (f : A -> B -> A) : forall l a, fold_left f (rev l) a = fold_right (fun x acc => f acc x) a l.
+Proof. induction l as [|x l IH]; intros a; [reflexivity|]. cbn [rev fold_right]. rewrite fold_left_app. cbn. now rewrite IH. Qed.
+Lemma rev_scanl_rev : forall l : list matR, rev (scanl mmul (mid 9) (rev l)) = map Phi (tails l).
+Proof.
+  induction l as [|x l IH]; [reflexivity|].
+  cbn [rev]. rewrite scanl_snoc, rev_app_distr. cbn [rev app tails map]. rewrite IH. f_equal.
+  unfold Phi. cbn [fold_right]. f_equal. apply fold_left_rev.
+Qed.
+Lemma wf_Phi : forall l, Forall (wf 9 9) l -> wf 9 9 (Phi l).
+Proof.
+  induction l as [|x l IH]; intros H; [apply mid_valid|].
+  unfold Phi. cbn [fold_right]. fold (Phi l). pose proof (IH (Forall_inv_tail H)). pose proof (Forall_inv H). eauto with wf.
+Qed.
+
+(* the documented recursion *)
+Definition cov_step (C : matR) (AQ : matR * matR) : matR := madd (congr (fst AQ) C) (snd AQ).
+Definition cov_rec (As Qs : list matR) (C0 : matR) : matR := fold_left cov_step (combine As Qs) C0.
+
+Lemma congr_mid P : wf 9 9 P -> congr (mid 9) P = P.
+Proof. intros H. unfold congr. rewrite (mmul_mid_l 9 9) by assumption. rewrite mtr_mid by lia. now apply (mmul_mid_r 9 9). Qed.
+Lemma congr_madd M P Q : wf 9 9 M -> wf 9 9 P -> wf 9 9 Q -> congr M (madd P Q) = madd (congr M P) (congr M Q).
+Proof.
+  intros HM HP HQ. unfold congr. rewrite (mmul_madd_r 9 9 9) by assumption.
+  apply (mmul_madd_l 9 9 9); eauto with wf.
+Qed.
+Lemma congr_congr M A P : wf 9 9 M -> wf 9 9 A -> wf 9 9 P -> congr M (congr A P) = congr (mmul M A) P.
+Proof.
+  intros HM HA HP. unfold congr. rewrite (mtr_mmul 9 9 9 M A) by assumption.
+  rewrite <- (mmul_assoc 9 9 9 9 M (mmul A P) (mtr A)) by eauto with wf.
+  rewrite <- (mmul_assoc 9 9 9 9 M A P) by assumption.
+  now rewrite (mmul_assoc 9 9 9 9 (mmul (mmul M A) P) (mtr A) (mtr M)) by eauto with wf.
+Qed.
+
+Lemma sum_is_recursion : forall (l Qs : list matR) (B0 : matR),
+  Forall (wf 9 9) l -> Forall (wf 9 9) Qs -> wf 9 9 B0 -> length Qs = length l ->
+  msum (zip_with congr (map Phi (tails l)) (B0 :: Qs)) = cov_rec l Qs B0.
+Proof.
+  induction l as [|A l IH]; intros Qs B0 Hl HQ HB Hlen.
+  - destruct Qs; [|discriminate]. unfold cov_rec, Phi. cbn [tails map zip_with msum fold_right combine fold_left]. now apply congr_mid.
+  - destruct Qs as [|Q Qs]; [discriminate|].
+    pose proof (Forall_inv Hl) as HA. pose proof (Forall_inv_tail Hl) as Hl'.
+    pose proof (Forall_inv HQ) as HQ0. pose proof (Forall_inv_tail HQ) as HQ'.
+    pose proof (wf_Phi l Hl') as HP.
+    assert (HB' : wf 9 9 (madd (congr A B0) Q)) by (unfold congr; eauto with wf).
+    specialize (IH Qs (madd (congr A B0) Q) Hl' HQ' HB' ltac:(cbn in Hlen; lia)).
+    unfold cov_rec. cbn [combine fold_left]. unfold cov_step at 2. cbn [fst snd]. fold (cov_rec l Qs (madd (congr A B0) Q)).
+    rewrite <- IH. cbn [tails map]. rewrite (tails_hd l). cbn [map zip_with msum].
+    cbn [fold_left]. f_equal. symmetry. rewrite congr_madd by (try assumption; unfold congr; eauto with wf).
+    rewrite congr_congr by assumption. reflexivity.
+Qed.
+
+Lemma wf_cov_Q cg ca c : wf 9 9 (cov_Q cg ca c).
+Proof.
+  destruct c as [[[[Rij Rk] a] jr] dt]. unfold cov_Q.
+  pose proof (wf_cov_Bg (Rij, Rk, a, jr, dt)). pose proof (wf_cov_Ba (Rij, Rk, a, jr, dt)).
+  pose proof (wf_diag3 cg). pose proof (wf_diag3 ca). eauto 10 with wf.
+Qed.
+
+(* for EVERY frame count: with the right-to-left order the result is the recursion
+   C_0 = init_cov,  C_{k+1} = A_k C_k A_k^T + Q_k *)
+Theorem propagate_cov_fixed_is_recursion (cs : list (cframe R)) (init_cov : matR) (cg ca : vec3R) :
+  wf 9 9 init_cov ->
+  propagate_cov_gen false cs init_cov cg ca = Some (cov_rec (map cov_A cs) (map (cov_Q cg ca) cs) init_cov).
+Proof.
+  intros Hi. unfold propagate_cov_gen.
+  assert (HAs : Forall (wf 9 9) (map cov_A cs)).
+  { apply Forall_forall. intros M HM. apply in_map_iff in HM. destruct HM as (c & <- & _). apply wf_cov_A. }
+  assert (HQs : Forall (wf 9 9) (map (cov_Q cg ca) cs)).
+  { apply Forall_forall. intros M HM. apply in_map_iff in HM. destruct HM as (c & <- & _). apply wf_cov_Q. }
+  rewrite rev_app_distr. cbn [rev app].
+  rewrite cumprod_mmul_scanl; [|apply mid_valid|now apply Forall_rev].
+  rewrite rev_scanl_rev. f_equal. apply sum_is_recursion; try assumption. now rewrite !map_length.
+Qed.
+
+(* consequently the recursion (and the fixed covariance) composes over consecutive chunks *)
+Lemma cov_rec_app : forall As1 Qs1 As2 Qs2 C0, length As1 = length Qs1 ->
+  cov_rec (As1 ++ As2) (Qs1 ++ Qs2) C0 = cov_rec As2 Qs2 (cov_rec As1 Qs1 C0).
+Proof.
+  induction As1 as [|A As1 IH]; intros [|Q Qs1] As2 Qs2 C0 H; try discriminate; [reflexivity|].
+  unfold cov_rec in *. cbn [app combine fold_left]. apply IH. cbn in H. lia.
+Qed.
+
+(* ---- the covariance inputs of a call as a sequential function of (world rotation, carried Rij) *)
+Fixpoint cfr_run (g : vec3R) (Rw Q : quatR) (fs : list iframeR) : list (cframe R) :=
+  match fs with
+  | [] => []
+  | f :: r =>
+    let Rw' := SO3_mul Rw (i_inc f) in
+    let Q' := SO3_mul Q (i_inc f) in
+    (Q', i_inc f, vsub (i_acc f) (SO3_act (SO3_inv (grav_rot f Rw')) g), i_jr f, i_dt f) :: cfr_run g Rw' Q' r
+  end.
+Lemma cfr_run_app g : forall a b Rw Q,
+  cfr_run g Rw Q (a ++ b) = cfr_run g Rw Q a ++ cfr_run g (fold_left SO3_mul (map (@i_inc R) a) Rw) (fold_left SO3_mul (map (@i_inc R) a) Q) b.
+Proof. induction a as [|f a IH]; intros b Rw Q; [reflexivity|]. cbn [app cfr_run map fold_left]. now rewrite IH. Qed.
+
+Lemma cframes_pre g ir q0 : forall fs s,
+  zip_with (fun (p : quatR * quatR * vec3R) f => (p, i_jr f, i_dt f))
+    (combine (combine (map (SO3_mul q0) (map p_R (pre_run g ir s fs))) (map (@i_inc R) fs)) (pre_accs g ir s fs)) fs
+  = cfr_run g (SO3_mul ir (p_R s)) (SO3_mul q0 (p_R s)) fs.
+Proof.
+  induction fs as [|f fs IH]; intros s; [reflexivity|].
+  cbn [pre_run pre_accs map combine zip_with cfr_run]. rewrite IH.
+  change (p_R (pre_step g ir s f)) with (SO3_mul (p_R s) (i_inc f)).
+  unfold pre_acc. rewrite <- !SO3_mul_assoc. reflexivity.
+Qed.
+
+Lemma forward1_cov (left : bool) (c : cfg R) (st : istate R) (fs : list iframeR) o st' :
+  c_prop c = true -> forward1_gen left c st fs = Some (o, st') ->
+  o_cov o = propagate_cov_gen left (cfr_run (c_g c) (s_rot st) (rij_val st) fs) (s_cov st) (c_cg c) (c_ca c).
+Proof.
+  intros Hp. unfold forward1_gen. destruct fs as [|f0 fs0]; [discriminate|]. set (fs := f0 :: fs0).
+  rewrite integrate_is_recursion. cbn [rot_default]. unfold predict, integ_of. cbn [g_Dr g_Dv g_Dp g_Dt g_w g_a]. rewrite Hp.
+  set (run := pre_run (c_g c) (s_rot st) pre_init fs).
+  assert (HR : match s_rij st with Some r => map (SO3_mul r) (map p_R run) | None => map p_R run end
+               = map (SO3_mul (rij_val st)) (map p_R run)).
+  { unfold rij_val. destruct (s_rij st); [reflexivity|]. rewrite <- (map_id (map p_R run)) at 1. apply map_ext. intros x. now rewrite SO3_id_l. }
+  rewrite HR. unfold cframes. cbn [g_w g_a]. unfold run. rewrite cframes_pre.
+  change (p_R pre_init) with (@SO3_id R NumR). rewrite !SO3_id_r.
+  destruct (propagate_cov_gen left _ _ _ _); [|discriminate]. intros E. inversion E; subst. reflexivity.
+Qed.
+
+Lemma world_R_fold g : forall fs s, w_R (fold_left (world_step g) fs s) = fold_left SO3_mul (map (@i_inc R) fs) (w_R s).
+Proof. induction fs as [|f fs IH]; intros s; [reflexivity|]. cbn [fold_left map]. now rewrite IH. Qed.
+Lemma wf_cov_rec : forall As Qs C0, Forall (wf 9 9) As -> Forall (wf 9 9) Qs -> wf 9 9 C0 -> wf 9 9 (cov_rec As Qs C0).
+Proof.
+  unfold cov_rec. induction As as [|A As IH]; intros [|Q Qs] C0 HA HQ HC; cbn [combine fold_left]; try assumption.
+  apply IH; [exact (Forall_inv_tail HA)|exact (Forall_inv_tail HQ)|].
+  unfold cov_step, congr. cbn [fst snd]. pose proof (Forall_inv HA). pose proof (Forall_inv HQ). eauto with wf.
+Qed.
+Definition cov_of_frames (cg ca : vec3R) (X : list (cframe R)) (C0 : matR) : matR :=
+  cov_rec (map cov_A X) (map (cov_Q cg ca) X) C0.
+Lemma wf_cov_of_frames cg ca X C0 : wf 9 9 C0 -> wf 9 9 (cov_of_frames cg ca X C0).
+Proof.
+  intros H. apply wf_cov_rec; [| |assumption]; apply Forall_forall; intros M HM; apply in_map_iff in HM; destruct HM as (x & <- & _);
+    [apply wf_cov_A|apply wf_cov_Q].
+Qed.
+
+(* with left = false: after any sequence of chunks the carried covariance is the documented
+   recursion over ALL frames fed so far *)
+Lemma run1_cov_fixed (c : cfg R) : c_reset c = false -> c_prop c = true ->
+  forall chunks st os st', Forall (fun fs => fs <> []) chunks -> Forall unit_frames chunks -> unitq (s_rot st) -> wf 9 9 (s_cov st) ->
+  run1_gen false c st chunks = Some (os, st') ->
+  s_cov st' = cov_of_frames (c_cg c) (c_ca c) (cfr_run (c_g c) (s_rot st) (rij_val st) (concat chunks)) (s_cov st).
+Proof.
+  intros Hr Hp. induction chunks as [|fs chunks IH]; intros st os st' Hne Hu H0 Hw E.
+  - cbn in E. inversion E; subst. reflexivity.
+  - cbn [run1_gen] in E.
+    destruct (forward1_world false c st fs (Forall_inv Hne) H0 (Forall_inv Hu)) as (o & st1 & E1 & _ & _ & _ & Hc & _ & Hs).
+    rewrite E1 in E. destruct (run1_gen false c st1 chunks) as [[os2 st2]|] eqn:E2; [|discriminate]. inversion E; subst os st'.
+    destruct (Hs Hr) as (Hw1 & Hq1 & Hcov).
+    pose proof (forward1_cov false c st fs o st1 Hp E1) as Ho. rewrite (propagate_cov_fixed_is_recursion _ _ _ _ Hw) in Ho.
+    pose proof (Hcov _ Ho) as Hc1. fold (cov_of_frames (c_cg c) (c_ca c) (cfr_run (c_g c) (s_rot st) (rij_val st) fs) (s_cov st)) in Hc1.
+    assert (H1 : unitq (s_rot st1)).
+    { change (s_rot st1) with (w_R (st_w st1)). rewrite Hw1. apply world_unit; [exact H0|exact (Forall_inv Hu)]. }
+    assert (Hw' : wf 9 9 (s_cov st1)) by (rewrite Hc1; now apply wf_cov_of_frames).
+    rewrite (IH st1 os2 st2 (Forall_inv_tail Hne) (Forall_inv_tail Hu) H1 Hw' E2).
+    cbn [concat]. rewrite cfr_run_app. unfold cov_of_frames. rewrite !map_app, cov_rec_app by (now rewrite !map_length).
+    fold (cov_of_frames (c_cg c) (c_ca c) (cfr_run (c_g c) (s_rot st) (rij_val st) fs) (s_cov st)). rewrite <- Hc1.
+    change (s_rot st1) with (w_R (st_w st1)). rewrite Hw1, world_R_fold, Hq1. reflexivity.
+Qed.
+
+(* chunk invariance of the covariance for the repaired order (left = false) *)
+Theorem cov_chunk_invariance_fixed (c : cfg R) (st : istate R) (chunks : list (list iframeR)) :
+  c_reset c = false -> c_prop c = true -> chunks <> [] -> Forall (fun fs => fs <> []) chunks -> Forall unit_frames chunks ->
+  unitq (s_rot st) -> wf 9 9 (s_cov st) ->
+  exists os st1 o st2,
+    run1_gen false c st chunks = Some (os, st1) /\ forward1_gen false c st (concat chunks) = Some (o, st2) /\
+    s_cov st1 = s_cov st2 /\ o_cov o = Some (s_cov st1).
+Proof.
+  intros Hr Hp Hc Hne Hu H0 Hw.
+  destruct (chunk_invariance false c st chunks Hr Hc Hne Hu H0) as (os & st1 & o & st2 & E1 & E2 & _).
+  exists os, st1, o, st2. split; [exact E1|]. split; [exact E2|].
+  pose proof (run1_cov_fixed c Hr Hp chunks st os st1 Hne Hu H0 Hw E1) as C1.
+  assert (E2' : run1_gen false c st [concat chunks] = Some ([o], st2)) by (cbn [run1_gen]; now rewrite E2).
+  assert (Hcne : concat chunks <> []).
+  { destruct chunks as [|fs r]; [contradiction|]. pose proof (Forall_inv Hne) as Hf. destruct fs; [contradiction|]. discriminate. }
+  assert (Hcu : unit_frames (concat chunks)).
+  { clear - Hu. induction chunks as [|fs r IH]; [constructor|]. cbn. apply Forall_app. split; [exact (Forall_inv Hu)|apply IH; exact (Forall_inv_tail Hu)]. }
+  pose proof (run1_cov_fixed c Hr Hp [concat chunks] st [o] st2 ltac:(repeat constructor; assumption) ltac:(repeat constructor; assumption) H0 Hw E2') as C2.
+  cbn [concat] in C2. rewrite app_nil_r in C2. split; [now rewrite C1, C2|].
+  pose proof (forward1_cov false c st (concat chunks) o st2 Hp E2) as Ho. rewrite (propagate_cov_fixed_is_recursion _ _ _ _ Hw) in Ho.
+  rewrite Ho, C1. reflexivity.
+Qed.
+
+(* ------------------------------------------------------------------ the batch axis: a rank-3 call is the per-item call on every item *)
+Definition no_rot (fs : list iframeR) : Prop := Forall (fun f => i_grot f = None) fs.
+Lemma frames_of_roundtrip : forall fs : list iframeR, no_rot fs ->
+  frames_of (map (@i_dt R) fs) (map (@i_inc R) fs) (map (@i_jr R) fs) (map (@i_acc R) fs) None = Some fs.
+Proof.
+  intros fs H. unfold frames_of. rewrite !map_length, !Nat.eqb_refl. cbn [andb negb]. f_equal.
+  induction fs as [|f fs IH]; [reflexivity|]. cbn [map combine zip_with]. rewrite IH by exact (Forall_inv_tail H).
+  f_equal. destruct f as [d q a r j]. pose proof (Forall_inv H) as E. cbn in E. subst r. reflexivity.
+Qed.
+Lemma opt_all_map_Some {A} (l : list A) : opt_all (map Some l) = Some l.
+Proof. induction l as [|x l IH]; [reflexivity|]. cbn. now rewrite IH. Qed.
+Lemma batch_frames : forall items : list (list iframeR), Forall no_rot items ->
+  zip_with (fun (p : list R * list quatR * list mat3R * list vec3R) r => let '(d, q, j, a) := p in frames_of d q j a r)
+    (combine (combine (combine (map (map (@i_dt R)) items) (map (map (@i_inc R)) items)) (map (map (@i_jr R)) items)) (map (map (@i_acc R)) items))
+    (repeat None (length items)) = map Some items.
+Proof.
+  induction items as [|fs items IH]; intros H; [reflexivity|].
+  cbn [map combine length repeat zip_with]. rewrite IH by exact (Forall_inv_tail H).
+  now rewrite frames_of_roundtrip by exact (Forall_inv H).
+Qed.
+Theorem forward_per_item (left : bool) (c : cfg R) (st : list (istate R)) (items : list (list iframeR)) :
+  Forall no_rot items ->
+  forward_gen left c st (T3 (map (map (@i_dt R)) items)) (T3 (map (map (@i_inc R)) items)) (T3 (map (map (@i_jr R)) items))
+              (T3 (map (map (@i_acc R)) items)) None =
+  match bcast (length items) st with
+  | Some stB => match opt_all (zip_with (forward1_gen left c) stB items) with
+                | Some res => Some (map fst res, map snd res) | None => None end
+  | None => None
+  end.
+Proof.
+  intros H. unfold forward_gen. cbn [trank check Nat.eqb andb negb]. rewrite !map_length, !Nat.eqb_refl. cbn [andb negb].
+  destruct (bcast (length items) st) as [stB|]; [|reflexivity].
+  rewrite batch_frames by assumption. now rewrite opt_all_map_Some.
 Qed.
